@@ -497,9 +497,18 @@ def eval_case(case, report=True):
                                 mp, None))
                     continue
                 if rf is not None:
-                    tie_area = any(abs(areas[i] - areas[j]) <= EPS * max(1.0, areas[i])
-                                   for i in range(len(areas)) for j in range(i + 1, len(areas))
-                                   if areas[i] != areas[j])
+                    # equal-area tie, decided on the real areas: two pieces within 1e-9 of each
+                    # other, unless they are exactly equal in the real run AND in the model
+                    # (then the stable sort keeps the same order on both sides)
+                    def sh2(l):
+                        return abs(sum(F(l[i - 1][0]) * F(q[1]) - F(l[i - 1][1]) * F(q[0])
+                                       for i, q in enumerate(l)))
+                    m_ar = [sh2(l) for l in mp] if mp is not None and len(mp) == len(areas) \
+                        else None
+                    tie_area = any(
+                        abs(areas[i] - areas[j]) <= EPS * max(1.0, areas[i]) and
+                        not (areas[i] == areas[j] and m_ar is not None and m_ar[i] == m_ar[j])
+                        for i in range(len(areas)) for j in range(i + 1, len(areas)))
 
                     def holes_same(mh, rh, unordered):
                         if len(mh) != len(rh):
